@@ -29,12 +29,18 @@ type domainRoutingTracker struct {
 	mu     sync.Mutex
 	owners map[string]domainRoutingOwnerSnapshot
 	ips    map[[4]uint32]*domainRoutingIPState
+	// pendingDeletes are addresses whose removal from the kernel map failed: no
+	// owner lists them any more, so no later diff would name them. Every sync
+	// retries them until the delete goes through or an owner lists them again.
+	pendingDeletes map[[4]uint32]struct{}
 }
 
 func newDomainRoutingTracker() *domainRoutingTracker {
 	return &domainRoutingTracker{
 		owners: make(map[string]domainRoutingOwnerSnapshot),
 		ips:    make(map[[4]uint32]*domainRoutingIPState),
+
+		pendingDeletes: make(map[[4]uint32]struct{}),
 	}
 }
 
@@ -220,14 +226,24 @@ func (t *domainRoutingTracker) syncOwnerLocked(
 	for key := range affected {
 		desiredBitmap, present := t.desiredBitmapForKeyLocked(key, ownerKey, snapshot)
 		current := t.ips[key]
+		_, pending := t.pendingDeletes[key]
 		switch {
 		case !present:
-			if current != nil {
+			if current != nil || pending {
 				keysToDelete = append(keysToDelete, key)
 			}
-		case current == nil || current.merged != desiredBitmap:
+		case current == nil || current.merged != desiredBitmap || pending:
 			keysToUpdate = append(keysToUpdate, key)
 			valuesToUpdate = append(valuesToUpdate, desiredBitmap)
+		}
+	}
+	// Deletes that failed in an earlier sync (of any owner) are retried here.
+	for key := range t.pendingDeletes {
+		if _, ok := affected[key]; ok {
+			continue
+		}
+		if t.ips[key] == nil {
+			keysToDelete = append(keysToDelete, key)
 		}
 	}
 
@@ -238,10 +254,28 @@ func (t *domainRoutingTracker) syncOwnerLocked(
 			}); err != nil {
 				return fmt.Errorf("update domain_routing_map: %w", err)
 			}
+			for _, key := range keysToUpdate {
+				delete(t.pendingDeletes, key)
+			}
 		}
 		if len(keysToDelete) > 0 {
 			if _, err := BpfMapBatchDelete(m, keysToDelete); err != nil {
+				// The update batch is already in the map: record the owner's new
+				// snapshot (otherwise the addresses just written are unknown to every
+				// later diff) and keep the undeleted addresses for the next sync.
+				t.applyOwnerSnapshotLocked(ownerKey, snapshot)
+				if t.pendingDeletes == nil {
+					t.pendingDeletes = make(map[[4]uint32]struct{})
+				}
+				for _, key := range keysToDelete {
+					if t.ips[key] == nil {
+						t.pendingDeletes[key] = struct{}{}
+					}
+				}
 				return fmt.Errorf("delete domain_routing_map: %w", err)
+			}
+			for _, key := range keysToDelete {
+				delete(t.pendingDeletes, key)
 			}
 		}
 	}
